@@ -38,6 +38,24 @@ Section Orc.
       Some (A (normalize_path o_resolve1 o_resolve2 (o_home tt) (s 0%nat) (s 1%nat)))
     else if is_cmd cmd "normalize_redirect_pattern" then
       Some (A (normalize_redirect_pattern o_resolve1 o_resolve2 (o_home tt) (s 0%nat) (s 1%nat)))
+    else if is_cmd cmd "expand_token" then
+      (* cwd token force_path *)
+      Some (A (expand_token o_resolve1 o_resolve2 (o_home tt) (s 0%nat) (sx_bool (a 2%nat)) (s 1%nat)))
+    else if is_cmd cmd "normalize_words" then
+      Some (A (normalize_words o_resolve1 o_resolve2 (o_home tt) (s 0%nat) (sx_strs (a 1%nat))))
+    else if is_cmd cmd "normalize_pattern" then
+      Some (A (normalize_pattern o_resolve1 o_resolve2 (o_home tt) (s 0%nat) (s 1%nat)))
+    else if is_cmd cmd "resolve_alias" then
+      (* cwd word aliases *)
+      Some (A (resolve_alias o_resolve1 o_resolve2 (o_home tt) (aliases_of_sx (a 2%nat)) (s 0%nat) (s 1%nat)))
+    else if is_cmd cmd "pat_matches" then
+      (* normalised-pattern exact normalised-command *)
+      Some (if fn_error (s 0%nat) then A $"error" else sx_of_bool (pat_matches (s 0%nat) (sx_bool (a 1%nat)) (s 2%nat)))
+    else if is_cmd cmd "expand_home_only" then Some (A (expand_home_only (o_home tt) (s 0%nat)))
+    else if is_cmd cmd "split_py" then Some (L (map A (split_py (s 0%nat))))
+    else if is_cmd cmd "nf" then
+      (* home cwd spelling: the specification side of C09 (no oracle) *)
+      Some (A (nf (s 0%nat) (s 1%nat) (s 2%nat)))
     else if is_cmd cmd "match_words" then
       (* cwd remote words rules aliases *)
       Some (sx_opt sx_of_rule
